@@ -809,6 +809,11 @@ DENSE = {
     "sq": (lambda xp, x, w: w * x * x, lambda x, w: 2 * w * x),
     "sin": (lambda xp, x, w: w * xp.sin(x), lambda x, w: w * onp.cos(x)),
     "ident": (lambda xp, x, w: x, lambda x, w: onp.ones_like(x)),
+    # the same terms reached through transposes: their cotangents arrive as Fortran-ordered views, and the sum of
+    # two of them is a Fortran-ordered (owned) running total
+    "lin_T": (lambda xp, x, w: xp.transpose(x) * xp.transpose(w), lambda x, w: w),
+    "sq_T": (lambda xp, x, w: xp.transpose(w) * xp.transpose(x) * xp.transpose(x), lambda x, w: 2 * w * x),
+    "sin_swap": (lambda xp, x, w: xp.swapaxes(w, 0, -1) * xp.sin(xp.swapaxes(x, 0, -1)) if onp.ndim(x) >= 2 else w * xp.sin(x), lambda x, w: w * onp.cos(x)),
 }
 
 
